@@ -23,7 +23,7 @@ Section CueForall.
         destruct (srt_blocks fmt b en cs0 n1) as [y n2] eqn:Ey. injection H as <- <-.
         apply Forall_app. split; [exact (He _ _ _ Ex) | exact (IHl Hl _ _ _ Ey)].
     - (* p *)
-      cbv zeta in H. destruct (only_whitespace _); injection H as <- <-; [constructor|]. constructor; [|constructor].
+      cbv zeta in H. destruct (srt_blank _); injection H as <- <-; [constructor|]. constructor; [|constructor].
       eapply Q_items; [|apply (HQ cs0)]. reflexivity.
   Qed.
   Lemma srt_blocks_forall fmt b en :
@@ -35,12 +35,15 @@ Section CueForall.
     - destruct (srt_block fmt b en e n) as [x n1] eqn:Ex. destruct (srt_blocks fmt b en l n1) as [y n2] eqn:Ey. injection H as <- <-.
       apply Forall_app. split; [exact (srt_block_forall fmt b en HQ _ _ _ _ Ex) | exact (IH _ _ _ Ey)].
   Qed.
-  Lemma finish_forall esc : forall cs, Forall Q cs -> Forall Q (finish_cues esc cs).
+  Lemma default_end_Q c : Q c -> Q (default_end c).
+  Proof. intros H. eapply Q_items; [|exact H]. unfold default_end. destruct (c_end c); reflexivity. Qed.
+  Lemma finish_forall fill blank : forall cs, Forall Q cs -> Forall Q (finish_cues fill blank cs).
   Proof.
     induction cs as [|c cs IH]; intros H; [constructor|]. inversion H as [|? ? Hc Hcs]; subst. destruct cs as [|c' cs'].
-    - cbn [finish_cues]. destruct (c_end c); [exact H|]. destruct (only_whitespace _); [constructor|].
-      constructor; [|constructor]. eapply Q_items; [|exact Hc]. reflexivity.
-    - change (finish_cues esc (c :: c' :: cs')) with (c :: finish_cues esc (c' :: cs')). constructor; [exact Hc | apply IH, Hcs].
+    - cbn [finish_cues]. destruct (c_end c); [exact H|]. destruct (blank c); [constructor|].
+      constructor; [|constructor]. apply default_end_Q, Hc.
+    - change (finish_cues fill blank (c :: c' :: cs')) with ((if fill then default_end c else c) :: finish_cues fill blank (c' :: cs')).
+      constructor; [destruct fill; [apply default_end_Q, Hc | exact Hc] | apply IH, Hcs].
   Qed.
   Theorem srt_cues_forall fmt :
     (forall b en cs0, Q (mkCue None b en (flat_map (srt_inline fmt) cs0) None None)) ->
@@ -68,20 +71,28 @@ Section CueForall.
     { intros ra b en p st0 x s1 Hx. unfold vtt_process_p in Hx.
       destruct (if line_position cfg then _ else _) as [line|]; [|discriminate]. cbn [bind] in Hx.
       destruct (vtt_inlines (echildren p) (v_css st0)) as [items css0] eqn:Ei.
-      destruct (only_whitespace _); injection Hx as <- _; [constructor|]. constructor; [|constructor].
+      destruct (vtt_blank _); injection Hx as <- _; [constructor|]. constructor; [|constructor].
       eapply Q_items; [|apply (HQ b en (echildren p) (v_css st0))]. cbn [c_items]. rewrite Ei. reflexivity. }
-    assert (Hps : forall ra b en ps st0 x s1, vtt_process_ps cfg ra b en ps st0 = Ok (x, s1) -> Forall Q x).
-    { intros ra b en. induction ps as [|p ps IH]; intros st0 x s1 Hx; cbn [vtt_process_ps] in Hx.
+    assert (Hbs : forall ra b en l, Forall (fun e => forall st0 x s1, vtt_block cfg ra b en e st0 = Ok (x, s1) -> Forall Q x) l ->
+                  forall st0 x s1, vtt_blocks cfg ra b en l st0 = Ok (x, s1) -> Forall Q x).
+    { intros ra b en. induction l as [|e l IH]; intros Hl st0 x s1 Hx; cbn [vtt_blocks] in Hx.
       - injection Hx as <- _. constructor.
-      - destruct (vtt_process_p cfg ra b en p st0) as [[x1 sa]|] eqn:E1; [|discriminate]. cbn [bind fst snd] in Hx.
-        destruct (vtt_process_ps cfg ra b en ps sa) as [[x2 sb]|] eqn:E2; [|discriminate]. cbn [bind fst snd] in Hx.
-        injection Hx as <- _. apply Forall_app. split; [exact (Hp _ _ _ _ _ _ _ E1) | exact (IH _ _ _ E2)]. }
+      - inversion Hl as [|? ? He Hl']; subst.
+        destruct (vtt_block cfg ra b en e st0) as [[x1 sa]|] eqn:E1; [|discriminate]. cbn [bind fst snd] in Hx.
+        destruct (vtt_blocks cfg ra b en l sa) as [[x2 sb]|] eqn:E2; [|discriminate]. cbn [bind fst snd] in Hx.
+        injection Hx as <- _. apply Forall_app. split; [exact (He _ _ _ E1) | exact (IH Hl' _ _ _ E2)]. }
+    assert (Hb : forall ra b en e st0 x s1, vtt_block cfg ra b en e st0 = Ok (x, s1) -> Forall Q x).
+    { intros ra b en. induction e as [a cs1 IH] using elem_ind2. intros st0 x s1 Hx. rewrite vtt_block_node in Hx.
+      destruct (e_kind a); try (injection Hx as <- _; constructor).
+      - exact (Hbs ra b en cs1 IH _ _ _ Hx).
+      - exact (Hp _ _ _ _ _ _ _ Hx). }
     assert (Hr : forall b en rs st0 x s1, vtt_regions cfg b en rs st0 = Ok (x, s1) -> Forall Q x).
     { intros b en. induction rs as [|r rs IH]; intros st0 x s1 Hx; cbn [vtt_regions] in Hx.
       - injection Hx as <- _. constructor.
-      - cbv zeta in Hx. destruct (vtt_process_ps cfg (eattrs r) b en _ st0) as [[x1 sa]|] eqn:E1; [|discriminate]. cbn [bind fst snd] in Hx.
+      - destruct (vtt_blocks cfg (eattrs r) b en _ st0) as [[x1 sa]|] eqn:E1; [|discriminate]. cbn [bind fst snd] in Hx.
         destruct (vtt_regions cfg b en rs sa) as [[x2 sb]|] eqn:E2; [|discriminate]. cbn [bind fst snd] in Hx.
-        injection Hx as <- _. apply Forall_app. split; [exact (Hps _ _ _ _ _ _ _ E1) | exact (IH _ _ _ E2)]. }
+        injection Hx as <- _. apply Forall_app. split; [|exact (IH _ _ _ E2)].
+        exact (Hbs _ _ _ _ (proj2 (Forall_forall _ _) (fun e _ => Hb (eattrs r) b en e)) _ _ _ E1). }
     induction seq as [|[t regions] seq IH]; intros cs0 st st0 E; cbn [vtt_loop] in E.
     - injection E as <- _. constructor.
     - destruct (q_ms t) as [b|]; [|discriminate]. cbn [bind] in E.
@@ -135,6 +146,7 @@ Lemma srt_span_wrap fmt a cs :
            (wrap (if fmt && is_element_italic a then Some (srt_ITALIC_TAG_IN, srt_ITALIC_TAG_OUT) else None)
               (wrap (if fmt && is_element_underlined a then Some (srt_UNDERLINE_TAG_IN, srt_UNDERLINE_TAG_OUT) else None)
                  (flat_map (srt_inline fmt) cs))))
+  | KRuby | KRbc | KRb => flat_map (srt_inline fmt) cs
   | KBr => [IChr 10]
   | KText => map IChr (e_text a)
   | _ => []
@@ -152,7 +164,7 @@ Qed.
 Theorem srt_inline_nested fmt : forall e, nested srt_pair (srt_inline fmt e).
 Proof.
   induction e as [a cs IH] using elem_ind2. rewrite srt_span_wrap. rewrite Forall_forall in IH.
-  destruct (e_kind a); try constructor; try apply nested_chars.
+  destruct (e_kind a); try (apply nested_flat_map; exact IH); try constructor; try apply nested_chars.
   repeat apply nested_wrap; try apply nested_flat_map; try exact IH.
   - destruct fmt; [|exact I]. destruct (get_color_of a p_Color) as [c|]; [|exact I]. right. right. right. exists c. split; reflexivity.
   - destruct (fmt && is_element_bold a); [|exact I]. left. split; reflexivity.
@@ -181,12 +193,13 @@ Lemma vtt_span_wrap a cs s :
               (wrap (if is_element_italic a then Some (vtt_ITALIC_TAG_IN, vtt_ITALIC_TAG_OUT) else None)
                  (wrap (if is_element_underlined a then Some (vtt_UNDERLINE_TAG_IN, vtt_UNDERLINE_TAG_OUT) else None)
                     (fst (vtt_inlines cs s2))))))
+  | KRuby | KRbc | KRb => fst (vtt_inlines cs s)
   | KBr => [IChr 10]
   | KText => map IChr (e_text a)
   | _ => []
   end.
 Proof.
-  cbn [vtt_inline]. destruct (e_kind a); try reflexivity. cbv zeta. rewrite vtt_inline_go_eq.
+  cbn [vtt_inline]. destruct (e_kind a); try reflexivity; try (rewrite vtt_inline_go_eq; reflexivity). cbv zeta. rewrite vtt_inline_go_eq.
   match goal with |- context [vtt_inlines cs ?s0] => destruct (vtt_inlines cs s0) as [inner s3] end. cbn [fst].
   destruct (get_color_of a p_Color), (get_color_of a p_BackgroundColor), (is_element_bold a), (is_element_italic a), (is_element_underlined a);
     cbn [wrap app]; rewrite <- ?app_assoc; cbn [app]; rewrite ?app_nil_r; reflexivity.
@@ -205,7 +218,7 @@ Qed.
 Theorem vtt_inline_nested : forall e s, nested vtt_pair (fst (vtt_inline e s)).
 Proof.
   induction e as [a cs IH] using elem_ind2. intros s. rewrite vtt_span_wrap. rewrite Forall_forall in IH.
-  destruct (e_kind a); try constructor; try apply nested_chars. cbv zeta.
+  destruct (e_kind a); try (apply vtt_inlines_nested_from; exact IH); try constructor; try apply nested_chars. cbv zeta.
   repeat apply nested_wrap; try (apply vtt_inlines_nested_from; exact IH).
   - destruct (get_color_of a p_Color) as [c|]; [|exact I].
     destruct (get_color_of a p_BackgroundColor); right; right; right; left; exists c; split; reflexivity.
@@ -238,9 +251,11 @@ Proof.
 Qed.
 Theorem srt_inline_no_tags : forall e, no_tags (srt_inline false e).
 Proof.
-  induction e as [a cs IH] using elem_ind2. rewrite srt_span_wrap. destruct (e_kind a) eqn:Ek; try (constructor; fail).
-  - (* span *) cbn [andb wrap]. unfold no_tags. rewrite Forall_forall. intros i Hi. apply in_flat_map in Hi as (c & Hc & Hi).
-    rewrite Forall_forall in IH. specialize (IH c Hc). unfold no_tags in IH. rewrite Forall_forall in IH. apply IH, Hi.
+  induction e as [a cs IH] using elem_ind2. rewrite srt_span_wrap.
+  assert (G : no_tags (flat_map (srt_inline false) cs)).
+  { unfold no_tags. rewrite Forall_forall. intros i Hi. apply in_flat_map in Hi as (c & Hc & Hi).
+    rewrite Forall_forall in IH. specialize (IH c Hc). unfold no_tags in IH. rewrite Forall_forall in IH. apply IH, Hi. }
+  destruct (e_kind a) eqn:Ek; try (constructor; fail); try exact G.
   - (* br *) constructor; [reflexivity | constructor].
   - (* text *) unfold no_tags. rewrite Forall_forall. intros i Hi. apply in_map_iff in Hi as (c & <- & _). reflexivity.
 Qed.
